@@ -33,9 +33,22 @@ struct Spec {
     expect: Expect,
 }
 
+/// A short document declaring a function block, and a long one that invokes it with a formal parameter
+/// it does not have: the diagnostic has its primary label far into the long document and a secondary
+/// label in the short one, so it is published for both.
+const CALLEE: &str = "FUNCTION_BLOCK Counter\nVAR_INPUT Reset : BOOL; END_VAR\nEND_FUNCTION_BLOCK\n";
+fn caller() -> String {
+    format!("(* {} *)\n(* \u{e9}\u{20ac} *) PROGRAM Main\nVAR c : Counter; END_VAR\n  c(Rst := TRUE);\nEND_PROGRAM\n", "x".repeat(300))
+}
+
 fn alphabet() -> Vec<Spec> {
     let n = |name, msg| Spec { name, msg, expect: Expect::Silent };
+    let caller = caller();
     vec![
+        n("didOpen(a,callee)", did_open(A, 1, CALLEE)),
+        n("didOpen(b,caller-with-unknown-formal)", did_open(B, 1, &caller)),
+        n("didOpen(a,caller-with-unknown-formal)", did_open(A, 1, &caller)),
+        n("didOpen(b,callee)", did_open(B, 1, CALLEE)),
         n("didOpen(a,V)", did_open(A, 1, V)),
         n("didOpen(a,X)", did_open(A, 1, X)),
         n("didOpen(b,V)", did_open(B, 1, V)),
